@@ -1528,6 +1528,9 @@ func main() {
 		}
 		for _, key := range []apiKey{{kind: "str", all: true}, {kind: "str", promise: true}} {
 			for pat := 1; pat < 8; pat++ {
+				if !h.Thorough() && pat != 1 && pat != 2 && pat != 4 {
+					continue // quick tier: exactly one unserialisable cursor (first / middle / last edge)
+				}
 				for c := 1; c <= 3; c++ {
 					for _, fwd := range []bool{true, false} {
 						for _, sel := range []selection{fullSel, {true, false, false}, {false, true, false}} {
@@ -1553,7 +1556,7 @@ func main() {
 				}
 			}
 		}
-		nLong := 8
+		nLong := 4
 		if h.Thorough() {
 			nLong = 100
 		}
